@@ -53,6 +53,13 @@ def run(res, tier, seed, wd, replay=None):
     s4, _ = cvh(["writer-drive", "--kind", "spy", "--seed", seed + 20, "--runs", runs // 2, "--ops", ops, "--out", w2])
     cases += s3["calls"] + s4["calls"]
     judge("WriterTrace", [w1, w2], "writer")
+    # real sockets and shared sinks: every sink kind alone and under concurrent use (a poisoned lock or an arithmetic
+    # overflow in a critical section is a panic of some later call)
+    k1 = os.path.join(wd, "s-drive.ndjson"); k2 = os.path.join(wd, "s-conc.ndjson")
+    s6, _ = cvh(["sink-drive", "--seed", seed + 20, "--runs", 40 if tier == "quick" else 600, "--ops", 30, "--out", k1], timeout=3000)
+    s7, _ = cvh(["sink-conc", "--seed", seed + 20, "--runs", 24 if tier == "quick" else 400, "--out", k2], timeout=3000)
+    cases += s6["calls"] + s7["calls"]
+    judge("WriterTrace", [k1, k2], "sock")
     # queue: capacities 0/1, panicking wrapped sink, drops
     q = os.path.join(wd, "q.ndjson")
     s5, _ = cvh(["queue-stress", "--seed", seed + 20, "--runs", 20 if tier == "quick" else 300, "--out", q], timeout=3000)
@@ -61,8 +68,8 @@ def run(res, tier, seed, wd, replay=None):
     log("[C20] %d hostile constructor scenarios, %d client calls, %d writer calls, %d queue emits under catch_unwind: panics observed client=%d writer=%d" % (
         s0["attempts"], s1["calls"] + s2["calls"], s3["calls"] + s4["calls"], s5["emits"], s0["panics"] + s1["panics"], s3["panics"] + s4["panics"]))
     res.cov["evaluations"] = cases
-    res.cov["distinct_nontrivial"] = s0["attempts"] + s2["calls"] + s1["clients"] + s3["runs"] + s4["runs"] + s5["runs"]
-    res.cov["traces_validated_against_impl"] = s0["attempts"] + s1["clients"] + s3["runs"] + s4["runs"] + s5["runs"]
+    res.cov["distinct_nontrivial"] = s0["attempts"] + s2["calls"] + s1["clients"] + s3["runs"] + s4["runs"] + s5["runs"] + s6["runs"] + s7["runs"]
+    res.cov["traces_validated_against_impl"] = s0["attempts"] + s1["clients"] + s3["runs"] + s4["runs"] + s5["runs"] + s6["runs"] + s7["runs"]
     res.cov["rule"] = ("evaluations = calls executed under catch_unwind (overflow checks + debug assertions on); distinct_nontrivial = hostile "
                        "constructor scenarios + boundary-class calls + distinct seeded configurations (clients / writer runs / queue scenarios); "
                        "random calls inside a configuration are not counted as distinct")
